@@ -7,6 +7,7 @@ package cache
 // present afterwards.  Last-use times are set through the verif hooks so that runs are deterministic.
 
 import (
+	"runtime"
 	"bufio"
 	"encoding/json"
 	"fmt"
@@ -91,6 +92,7 @@ func runCacheCase(cs cCase) []cRes {
 		}
 		mu.Unlock()
 		r := cRes{}
+		g0 := runtime.NumGoroutine()
 		func() {
 			defer func() {
 				if p := recover(); p != nil {
@@ -100,7 +102,9 @@ func runCacheCase(cs cCase) []cRes {
 			switch ev.Op {
 			case "set":
 				c.Set(ev.K, ev.V)
-				c.VerifSetUsed(ev.K, now.Add(-time.Duration(ev.AgeMS)*time.Millisecond))
+				if ev.AgeMS != 0 {
+					c.VerifSetUsed(ev.K, now.Add(-time.Duration(ev.AgeMS)*time.Millisecond))
+				}
 			case "get":
 				t0 := time.Now()
 				v, err := c.Get(ev.K)
@@ -121,7 +125,9 @@ func runCacheCase(cs cCase) []cRes {
 				fails[ev.K] = !ev.OK
 				during = func() {
 					c.Set(ev.K, ev.V)
-					c.VerifSetUsed(ev.K, now.Add(-time.Duration(ev.AgeMS)*time.Millisecond))
+					if ev.AgeMS != 0 {
+						c.VerifSetUsed(ev.K, now.Add(-time.Duration(ev.AgeMS)*time.Millisecond))
+					}
 				}
 				r.Err = c.Delete(ev.K) != nil
 				if during != nil {
@@ -139,8 +145,12 @@ func runCacheCase(cs cCase) []cRes {
 			}
 		}()
 		// the count prune started by a Set beyond the limit runs asynchronously: let it finish within this event
-		if (ev.Op == "set" || ev.Op == "delete_set") && cs.Count > 0 && c.VerifLen() > cs.Count {
-			time.Sleep(3 * time.Millisecond)
+		if (ev.Op == "set" || ev.Op == "delete_set") && cs.Count > 0 {
+			// (the goroutine has ended when the number of goroutines is back to what it was before the event)
+			deadline := time.Now().Add(5 * time.Second)
+			for runtime.NumGoroutine() > g0 && time.Now().Before(deadline) {
+				time.Sleep(200 * time.Microsecond)
+			}
 		}
 		keys, _ := c.List()
 		sort.Strings(keys)
